@@ -9,7 +9,7 @@ from vplib import Case
 PROP = "C09"
 LEVEL = "proof"
 IMPORTS = ["Ty.Ty", "Core.Prog", "Merkle.Run"]
-CRATE = "harness_merkle"
+CRATE = None  # merged into the main harness crate
 COMMAND = "roots"
 
 # Print Assumptions lists the primitive-integer operations the executable SHA-256 is written with
